@@ -61,13 +61,19 @@ def make_fibre(fc):
     return fib
 
 
-def comb(types, pattern, gap=False, start=193.0e12):
+def comb(types, pattern, gap=False, start=193.0e12, inner=None):
+    """inner = 'low' / 'high': the comb spans its packed width + 300 GHz with the same first and last channel; the inner
+    channels are packed next to the first ('low') or next to the last ('high') one"""
     f, baud, slot, pw = [], [], [], []
     edge = start
     for i, t in enumerate(types):
         b, s = H_TYPES[t]
         if gap and i == len(types) // 2:
             edge += 150e9
+        if inner == 'high' and i == 1:
+            edge += 300e9
+        if inner == 'low' and i == len(types) - 1 and i > 0:
+            edge += 300e9
         f.append(edge + s / 2)
         edge += s
         baud.append(b)
@@ -82,10 +88,16 @@ def comb(types, pattern, gap=False, start=193.0e12):
     return dict(f=f, baud=baud, slot=slot, p=pw)
 
 
-def make_si(cb, order=None, scale_db=0.0):
+def make_si(cb, order=None, scale_db=0.0, ctor='arbitrary'):
     import numpy as np
-    from gnpy.core.info import create_arbitrary_spectral_information
+    from gnpy.core.info import create_arbitrary_spectral_information, carriers_to_spectral_information, Carrier
     idx = list(range(len(cb['f']))) if order is None else list(order)
+    if ctor == 'carriers':
+        # the other way of supplying channels: a dict frequency -> Carrier, in the given order
+        spectrum = {cb['f'][i]: Carrier(delta_pdb=0.0, baud_rate=cb['baud'][i], slot_width=cb['slot'][i], roll_off=0.1,
+                                        tx_osnr=40.0, tx_power=1e-3 * 10 ** ((cb['p'][i] + scale_db) / 10), label='x')
+                    for i in idx}
+        return carriers_to_spectral_information(spectrum, power=1e-3)
     return create_arbitrary_spectral_information(
         frequency=np.array([cb['f'][i] for i in idx]),
         pch=1e-3 * 10 ** ((np.array([cb['p'][i] for i in idx]) + scale_db) / 10),
@@ -171,12 +183,13 @@ def run_case(case):
     for cb_spec in case['combs']:
         if fc.get('sim') in ('computed_channels', 'computed_number') and len(cb_spec['types']) < 2:
             continue
-        cb = comb(cb_spec['types'], cb_spec['pattern'], cb_spec.get('gap', False))
+        cb = comb(cb_spec['types'], cb_spec['pattern'], cb_spec.get('gap', False), inner=cb_spec.get('inner'))
         n = len(cb['f'])
         si = make_si(cb)
         out = np.array(nli(fib, si), dtype=float)
         transitions += 1
-        where = f'fibre {fc} comb types={cb_spec["types"]} powers={cb_spec["pattern"]}'
+        where = f'fibre {fc} comb types={cb_spec["types"]} powers={cb_spec["pattern"]}' + \
+            (f' inner channels packed {cb_spec["inner"]}' if cb_spec.get('inner') else '')
         if (out < 0).any() or np.isnan(out).any():
             v('nli-negative', f'{where}: NLI = {out.tolist()}')
             continue
@@ -208,12 +221,16 @@ def run_case(case):
         # order independence: all permutations of the supplied channel list (n <= 4), a few rotations beyond
         perms = list(itertools.permutations(range(n))) if n <= 4 else [tuple(range(n))[::-1], tuple(range(1, n)) + (0,)]
         for pm in perms[1:] if n <= 4 else perms:
-            sp = make_si(cb, order=pm)
-            op = np.array(nli(fib, sp))
-            transitions += 1
-            if not (np.array_equal(sp.frequency, si.frequency) and np.allclose(op, out, rtol=1e-12, atol=0)):
-                v('order-dependence', f'{where}: channels supplied in order {pm} give NLI {op.tolist()} vs {out.tolist()}')
-                ok = False
+            for ctor in ('arbitrary', 'carriers'):
+                sp = make_si(cb, order=pm, ctor=ctor)
+                op = np.array(nli(fib, sp))
+                transitions += 1
+                if not (np.array_equal(sp.frequency, si.frequency) and np.allclose(op, out, rtol=1e-12, atol=0)):
+                    v('order-dependence', f'{where}: channels supplied in order {pm} ({ctor} constructor) give NLI {op.tolist()} '
+                      f'vs {out.tolist()}')
+                    ok = False
+                    break
+            if not ok:
                 break
         # monotone: raising one channel by 1 dB / adding a channel never lowers any channel's NLI
         for i in range(min(n, 4)):
@@ -286,6 +303,11 @@ def all_combs(tier, seed):
         for x in sp.enumerate(1 if tier == 'quick' else 2):
             combs.append({'types': [x[f't{i}'] for i in range(n)], 'pattern': POWER_PATTERNS[(seed + sum(x[f't{i}'] for i in range(n))) % 3],
                           'gap': n == 8})
+    # same channel count, same first / last channel and same symbol rates, different inner placement, evaluated one after the
+    # other on the same fibre object (every comb of a case shares the fibre)
+    for types in ([0, 0, 0], [1, 1, 1, 1], [0, 1, 0], [2, 0, 0, 2]):
+        for inner in ('low', 'high', 'low'):
+            combs.append({'types': types, 'pattern': 'ramp', 'inner': inner})
     combs.append({'types': [0] * 76, 'pattern': 'flat'})
     combs.append({'types': [0, 1] * 30, 'pattern': 'ramp'})
     if tier == 'thorough':
